@@ -49,12 +49,12 @@ CHECKS.update({
 CHECKS.update({
     "C10": ("model_checking", "E1",
             "preemption- and deviation-bounded exhaustive schedule exploration (controlled scheduler, rate-limiter answers as environment choices) of publishers writing real MQTT packets into the real listener.Conn / websocket transport while the periodic flush runs",
-            "Four scenarios (plain buffered connection with two publishers x two packets and two timer flushes; websocket transport; websocket over the buffered connection; the shared encode-buffer pool with yields inside the encoder) are explored exhaustively up to 2 (quick) / 3 (thorough) deviations; the byte stream that reached the socket is parsed by an independent MQTT decoder and must consist of complete packets, each sent message once, per-publisher order kept, nothing left queued after the timer flush.",
+            "Nine scenarios (plain buffered connection with two publishers x two packets and two timer flushes, with one packet pre-queued, and with a large packet of 1.1/4.2/8.3/60 KB behind a queued small one; websocket transport; websocket over the buffered connection; the shared encode-buffer pool with yields inside the encoder) are explored exhaustively up to 2 (quick) / 3 (thorough) deviations; the byte stream that reached the socket is parsed by an independent MQTT decoder and must consist of complete packets, each sent message once, per-publisher order kept, nothing left queued after the timer flush.",
             "socket Write calls are atomic; sequentially consistent statement-level interleavings; real sockets/TLS/OS scheduling not modelled.",
             "DESIGN.md §4 C10"),
     "C11": ("exploration", "E3",
             "bounded-exhaustive enumeration of key-generation and link-extension requests through a real broker connection, decrypted results and behavioural grants compared with a reference",
-            "Every (parent kind incl. all 64 extendable masks, crafted expired/foreign/garbage parents) x 142 type strings x 3 ttls x 9 channels request goes through the real emitter/keygen/ handler; the decrypted key is checked clause by clause (no master bit, permissions within request and parent, contract/signature/master copied, expiry) and its grants through the real Authorize are compared in both directions with a string-level reference over 125 probe channels; extendable keys are tried for publish, subscribe, unsubscribe, presence and link auto-subscribe.",
+            "Every (parent kind incl. all 64 extendable masks, crafted expired/foreign/garbage parents) x 142 type strings x 3 ttls x 9 channels request goes through the real emitter/keygen/ handler; the decrypted key is checked clause by clause (no master bit, permissions within request and parent, contract/signature/master copied, expiry) and its grants through the real Authorize are compared in both directions with a string-level reference over 125 probe channels; extendable keys are tried for publish, subscribe, unsubscribe, presence and link auto-subscribe. Requests that omit every non-empty subset of {key, channel, type, ttl} are sent right after a complete successful request (what is not sent is not requested).",
             "one license version (v3); wildcard requests against keys are C03's business.",
             "DESIGN.md §4 C11"),
 })
@@ -62,7 +62,7 @@ CHECKS.update({
 CHECKS.update({
     "C14": ("model_checking", "E2",
             "bounded-exhaustive enumeration of every ban/unban/use/restart/crash-restart/gossip-to-peer operation sequence against real brokers with a real state directory (every history is a state; no merging)",
-            "Every sequence over {ban, unban, use} to depth 6 (quick) / 8 (thorough) and over {ban, unban, use, restart, crash, useB2, sync} to depth 3 / 5 is executed: ban/unban are real emitter/keyban/ requests with the master key, use is a real SUBSCRIBE presenting the key, restart closes and reopens the broker on the same directory, crash abandons it un-closed and opens a second one, sync feeds the exact broadcast payloads to a second broker; every use must agree with the last acknowledged ban request.",
+            "Every sequence over {ban, unban, use} to depth 6 (quick) / 8 (thorough) and over {ban, unban, use, restart, crash, useB2, sync} to depth 3 / 5 is executed: ban/unban are real emitter/keyban/ requests with the master key, use is a real SUBSCRIBE presenting the key, restart closes and reopens the broker on the same directory, crash abandons it un-closed and opens a second one, sync feeds the exact broadcast payloads to a second broker, syncfull the first broker's complete state in one payload (periodic exchange); every use must agree with the last acknowledged ban request, and a banned key must also be refused when its text is respelled in the standard base64 alphabet.",
             "cache/tombstone TTLs (60 s / 6 h) never elapse in a run; kill is modelled by abandoning the process state, power loss out of scope.",
             "DESIGN.md §4 C14"),
 })
@@ -78,7 +78,7 @@ CHECKS.update({
 CHECKS.update({
     "C03": ("exploration", "E3",
             "bounded-exhaustive enumeration of (key target, permission mask, expiry, requested channel, operation) tuples through the real Authorize on real brokers per license version, compared in both directions with a string-level reference",
-            "169 targets x 681 requests x 6 operations with mask 0xFE on all three licenses plus all 256 masks x 3 expiries on representative pairs (quick), the full product with all masks (thorough); foreign-contract/signature/master keys crafted with the real cipher, undecryptable strings and banned keys; every disagreement is shrunk to a minimal shape-based signature.",
+            "169 targets x 681 requests x 6 operations with mask 0xFE on all three licenses plus all 256 masks x 3 expiries on representative pairs (quick), the full product with all masks (thorough); foreign-contract/signature/master keys crafted with the real cipher, undecryptable strings, banned keys and banned keys presented in another spelling (standard base64 alphabet); every disagreement is shrunk to a minimal shape-based signature.",
             "grammar: 3 literals, '+', '#', depth <= 3 targets / <= 4 requests; single-contract provider.",
             "DESIGN.md §4 C03"),
     "C12": ("exploration", "E3",
@@ -96,7 +96,7 @@ CHECKS.update({
 CHECKS.update({
     "C17": ("model_checking", "E3+E1",
             "exhaustive enumeration of stream compositions (every chunking, EOF placement, matcher set, consumer buffer; every write/limiter/flush script; every websocket message/fragment composition) replayed against the real adapters + preemption-bounded exhaustive schedule exploration of the concurrent write path",
-            "(a) every stream of length <= 10/12 with every composition into socket reads through the real Listener.Serve sniffing loop; (b) every sequence of <= 4 writes x every rate-limiter answer x every flush placement on the real listener.Conn; (c) two writers and the timer flush on the real listener.Conn under the controlled scheduler up to 2/3 deviations with a byte-level interleaving oracle; (d) every composition of <= 8 bytes into websocket messages with empty messages and control frames inserted, every fragmentation, 11 consumers incl. bufio.ReadByte, plus real gorilla framing (thorough).",
+            "(a) every stream of length <= 10/12 with every composition into socket reads through the real Listener.Serve sniffing loop; (b) every sequence of <= 4 small writes, and of <= 3 writes with sizes from {2, 4100, 8200, 66000} (thorough: 9 sizes, pairs), x every rate-limiter answer x every flush placement on the real listener.Conn; (c) two writers and the timer flush on the real listener.Conn under the controlled scheduler up to 2/3 deviations with a byte-level interleaving oracle; (d) every composition of <= 8 bytes into websocket messages with empty messages and control frames inserted, every fragmentation, 11 consumers incl. bufio.ReadByte, plus real gorilla framing (thorough).",
             "fake sockets hand out scripted chunks; socket writes atomic; real sockets/TLS not modelled.",
             "DESIGN.md §4 C17"),
 })
@@ -122,7 +122,7 @@ CHECKS.update({
             "DESIGN.md §4 C06"),
     "C15": ("fault_enumeration", "E4",
             "exhaustive enumeration of crash points of a fixed store history on the real disk store: after every acknowledgement (close / exit / SIGKILL), at every file-system syscall ordinal (strace injection per thread + an own ptrace tracer per process), and 3-cycle crash/restart patterns; verification in a fresh process",
-            "A child process stores 4 messages (two channels, one retained, one 30 KiB) acknowledging each; it is stopped cleanly, by exit or by SIGKILL after each acknowledgement, killed on entry of the N-th call of each of 18 file-system syscalls (per thread via strace, per process via a ptrace tracer) in a fresh and a restarted directory, and run through 216 three-cycle crash/restart patterns; a fresh process must reopen the store and find every acknowledged message with identical id, channel, payload and ttl, and nothing that was never stored.",
+            "A child process stores 4 messages (two channels, one retained, one 30 KiB) acknowledging each; it is stopped cleanly, by exit or by SIGKILL after each acknowledgement, killed on entry of the N-th call of each of 18 file-system syscalls (per thread via strace, per process via a ptrace tracer) in a fresh and a restarted directory, and run through 216 three-cycle crash/restart patterns; in a further part 2-4 process generations store messages on one channel within one second under ids allocated by message.NewID itself (no two acknowledged stores may share an id, all must come back); a fresh process must reopen the store and find every acknowledged message with identical id, channel, payload and ttl, and nothing that was never stored.",
             "kill = process death (page cache survives), power loss out of scope; instants between syscalls (stores into mmap'd files) are not enumerated; quick caps the syscall ordinals (exhaustive:false by design).",
             "DESIGN.md §4 C15"),
 })
